@@ -199,8 +199,10 @@ def run(ctx):
             continue
         body = f.hir["body"]
         for n_ in hirq.find(body, "if"):
-            builds = any((x.get("k") == "call" and (x.get("fn") or "").endswith("Value::Array")) for x in hirq.walk(n_["then"]))
-            if not builds or "is_array" not in hirq.render(n_["c"]) and "array_size" not in hirq.render(n_["c"]):
+            builds_t = any((x.get("k") == "call" and (x.get("fn") or "").endswith("Value::Array")) for x in hirq.walk(n_["then"]))
+            builds_e = n_.get("else") is not None and any((x.get("k") == "call" and (x.get("fn") or "").endswith("Value::Array")) for x in hirq.walk(n_["else"]))
+            # exactly one arm builds the array (either arm: the test may be spelled negated)
+            if builds_t == builds_e or "is_array" not in hirq.render(n_["c"]) and "array_size" not in hirq.render(n_["c"]):
                 continue
             lets_ = {l["pat"]["name"]: l["init"] for l in hirq.find(body, "let") if l["pat"].get("k") == "bind" and l.get("init") is not None}
             ctx.saw_fn(f)
@@ -214,6 +216,7 @@ def run(ctx):
                                 return int(m_.group(1)) if size is None else size
                             return None
                         got = _bv17(n_["c"], {"__bleaf__": (lambda r_, isarr=isarr: isarr if r_.endswith(".is_array") else None), "__leaf__": leaf}, lets_)
+                        got = got if builds_t else not got
                         if got != isarr and bad is None:
                             bad = (isarr, size, got)
                 if bad:
@@ -437,6 +440,12 @@ def run(ctx):
         val = fns.get("wow_cdbc::schema::Schema::validate")
         vtxt = hirq.render(val.hir["body"]) if val else ""
         closures_v = " ".join(hirq.render(x) for x in hirq.walk(val.hir["body"])) if val else ""
+        if val:
+            # helpers the validator counts through (a nested fn handed to `map`, a private fn of the module), one level
+            refd = {c_.get("fn") for c_ in hirq.calls(val.hir["body"])} | {x["res"]["def"] for x in hirq.walk(val.hir["body"]) if x.get("k") == "path" and "def" in (x.get("res") or {}) and str(x["res"].get("dk", "")).startswith("Fn")}
+            for g_ in c.fn_list:
+                if g_.hir and g_.kind != "Closure" and g_.path in refd and g_.path.startswith("wow_cdbc::schema::") and g_.path != val.path:
+                    closures_v += " " + " ".join(hirq.render(x) for x in hirq.walk(g_.hir["body"]))
         # everything the header's field_count value is computed from (through intermediate locals, accumulators and loops)
         def dep_text(body, start):
             seen, work, out = set(), [start], []
